@@ -89,6 +89,8 @@ type Path struct {
 	nViol          int
 	chooseN        int // number of non-forced choose decisions (shape)
 	stdout         value
+	onSend         value // verifOnSend: the consumer's reaction, run at every send of the producer
+	inSendHook     bool
 	goN            int // goroutines started by the code under test on this path
 	sigpipeIgnored bool
 	tz             int64 // local time zone offset of this path (seconds east of UTC)
